@@ -526,12 +526,38 @@ pub fn check_stream<D: Subject>(d: &D, before: &Before, bd: &BuildData<D>, node_
     }
     leaders.sort();
     leaders.dedup();
-    // a leader that is only a join point / branch target inside a run is not a new run: runs are the roots emitted
-    // by the builder = targets that follow a terminator or start the build. A leader whose predecessor is not a
-    // terminator must be a fall-through join (reached by falling through as well), which is allowed only when
-    // the predecessor can fall through; we therefore only demand: control never falls off the end (above) and
-    // every leader lies inside the build (checked). The stronger per-root rule is checked by C06's path search.
-    let _ = leaders;
+    // A run starts at a *block entry*: the build's entry point, the target of a conditional jump (JumpIfTrue,
+    // JumpIfFalse, And, Or - the out-of-line arm / right operand) and the body of a nested expression (an
+    // Expression value). The instruction before a block entry must be a terminator, otherwise the previous run
+    // falls through into it. A jump entry that is only the operand of JumpTo is a join point inside a run (reached
+    // by falling through as well) and is not a run start.
+    let mut block_entries: Vec<(usize, &'static str)> = vec![];
+    if own_jump(*bd.jump_index()) {
+        block_entries.push((*bd.jump_index(), "entry"));
+    }
+    for pc in before.instr..n {
+        if let Some((ins, Some(j))) = d.get_instruction(pc) {
+            if matches!(ins, Instruction::JumpIfTrue | Instruction::JumpIfFalse | Instruction::And | Instruction::Or) && own_jump(j) {
+                block_entries.push((j, "branch"));
+            }
+        }
+    }
+    for a in before.data..dl {
+        if d.get_data_type(a).ok() == Some(GarnishDataType::Expression) {
+            if let Ok(j) = d.get_expression(a) {
+                if own_jump(j) {
+                    block_entries.push((j, "expression"));
+                }
+            }
+        }
+    }
+    for (j, what) in block_entries {
+        if let Some(t) = d.get_from_jump_table(j) {
+            if t > before.instr && t < n && !is_term(t - 1) {
+                return Err(Malformed(format!("run-falls-through-into-{}-block", what)));
+            }
+        }
+    }
     Ok(())
 }
 
@@ -922,8 +948,8 @@ impl Property for C05 {
     fn meta(&self, tier: Tier) -> Meta {
         let s = spaces(tier);
         Meta {
-            rule: format!("every input of the C03 corpora that the pipeline accepts plus the {} programs of the C01 corpora, each built four times: into a fresh SimpleGarnishData / BasicGarnishData and into objects pre-loaded with 7 foreign instructions, 3 jump entries and 5 constants. Oracle per instruction: operand present iff required, data operands in range and naming a value of the required kind, jump operands and expression values naming a jump entry appended by this build, every appended jump entry pointing at an instruction emitted by this build (a surviving 0 placeholder is foreign in the pre-loaded object), last instruction is EndExpression or JumpTo, one metadata record per emitted instruction naming an existing node. Non-trivial = accepted input; distinct by text.", s.t1.len() + s.t2.len() + s.t3.len()),
-            assumptions: vec!["'every straight-line run ends in a terminator' is checked as: the stream's last instruction is a terminator here, and no path falls off a block in C06's path search over the same corpus".into()],
+            rule: format!("every input of the C03 corpora that the pipeline accepts plus the {} programs of the C01 corpora, each built four times: into a fresh SimpleGarnishData / BasicGarnishData and into objects pre-loaded with 7 foreign instructions, 3 jump entries and 5 constants. Oracle per instruction: operand present iff required, data operands in range and naming a value of the required kind, jump operands and expression values naming a jump entry appended by this build, every appended jump entry pointing at an instruction emitted by this build (a surviving 0 placeholder is foreign in the pre-loaded object), last instruction is EndExpression or JumpTo, the instruction before every block entry (build entry, target of JumpIfTrue/JumpIfFalse/And/Or, body of an expression value) is EndExpression or JumpTo, one metadata record per emitted instruction naming an existing node. Non-trivial = accepted input; distinct by text.", s.t1.len() + s.t2.len() + s.t3.len()),
+            assumptions: vec!["'every straight-line run ends in a terminator' is checked as: the stream's last instruction is a terminator and so is the instruction before every block entry (entry point, conditional-jump target, expression body); a jump entry used only by JumpTo is a join point inside a run".into()],
             trusted_base: vec!["engine/src/props/pipeline.rs check_stream, operand_kind table".into()],
             explanation: "bounded-exhaustive enumeration with a well-formedness oracle on the built instruction stream".into(),
         }
